@@ -338,7 +338,9 @@ def check_case(case, cell):
                     rd = refdist(refs[f], refs[g], scale=L)
                     if rd["lower"] > delta:
                         s = "sep"
-                    elif rd["upper"] == 0.0 and pd_lower(refs[f], refs[g], dirs=[refs[g].center() - refs[f].center()]) > delta:
+                    elif rd["upper"] <= 1e-9 * L and pd_lower(
+                            refs[f], refs[g], dirs=[refs[g].center() - refs[f].center(),
+                                                    refs[f].center() - refs[g].center()]) > delta:
                         s = "col"
                     else:
                         s = "unclear"
